@@ -224,7 +224,7 @@ def run_case(case):
                 mech = None
                 if spacec and dtime == 0 and a[2] == b[2]:
                     mech = 'space-transfer-matrices-not-bit-reproducible-across-constructions'
-                if kdep and dtime == 0:
+                if kdep and (dtime == 0 or (procs >= 3 and i >= kb * procs and dtime <= 4 * ulp)):
                     # the stale coefficients also survive from step to step inside one run, which a freshly built continuation cannot reproduce
                     mech = 'k-dependent-preconditioner-state-survives-a-run'
                 if procs >= 3 and i >= kb * procs and dtime <= 4 * ulp and a[2] == b[2] and a[1] == b[1]:
